@@ -194,6 +194,14 @@ class SymArray(_np.ndarray):
             return self             # NumPy hands back the very same array: aliasing matters to the code under test
         o = self.view(_np.ndarray).copy().view(SymArray)
         o._nd = dtype
+        if dtype == _np.float32 and self._nd != _np.float32:
+            # rounding is not modelled for symbolic values, but a *constant* cast to single precision is the float32 it
+            # becomes (np.full(shape, 0.1).astype(float32) holds 0.100000001490116...)
+            raw = o.view(_np.ndarray)
+            for idx in _np.ndindex(*raw.shape):
+                e = raw[idx]
+                if isinstance(e, S) and e.n.op == "const":
+                    raw[idx] = S(const(float(_np.float32(float(e.n.val)))), dtype)
         return o
 
     def __getitem__(self, key):
